@@ -200,6 +200,11 @@ func (sj *SemiJoin) optForward(mode Mode, req Require) (Cost, Cost, any) {
 // scanned, so reverse mode is only chosen when its total cost (including
 // deduplication) is lower than forward mode.
 func (sj *SemiJoin) optReverse(mode Mode, req Require) (Cost, Cost, any) {
+	if sj.fastSingle() {
+		// optimize clears req for fastSingle, but Select and Lookup
+		// can still be called, and reverse needs source2 set up for them
+		return impossible, impossible, nil
+	}
 	nrows2, _ := sj.source2.Nrows()
 	fixcost2, varcost2 := Optimize(sj.source2, mode, req)
 	if fixcost2+varcost2 >= impossible {
